@@ -127,7 +127,7 @@ Definition take_oracle (a : astate) (th p : Z) (os : list (Z * bool))
 Definition x_set_assoc (s : xstate) (th p : Z) (os : list (Z * bool))
   : outcome (xstate * Z * list (Z * bool)) :=
   let (o, os') := take_oracle (x_a s) th p os in
-  if negb (oracle_ok (x_a s) o) then Misuse else
+  if negb (oracle_ok (x_a s) th o) then Misuse else
   match thread_set_associated_pool bi (x_a s) th p o with
   | None => Abort
   | Some (a', c) => Ok (with_a s a', c, os')
@@ -209,7 +209,7 @@ Definition xstep (s : xstate) (op : xop) : outcome (xstate * xres) :=
       match zfind (a_thr (x_a s)) th, zfind (x_thr s) th with
       | None, None =>
           let (o, _) := next_oracle os in
-          if negb (oracle_ok (x_a s) o) then Misuse else
+          if negb (oracle_ok (x_a s) th o) then Misuse else
           match thread_init_pool bi (x_a s) th p o with
           | None => Abort
           | Some (a', c) =>
@@ -243,7 +243,7 @@ Definition xstep (s : xstate) (op : xop) : outcome (xstate * xres) :=
           match x_loc x with
           | LOut =>
               let (o, _) := take_oracle (x_a s) th p os in
-              if negb (oracle_ok (x_a s) o) then Misuse else
+              if negb (oracle_ok (x_a s) th o) then Misuse else
               match unit_set_associated_pool bi (x_a s) (t_unit f) p o with
               | None => Abort
               | Some (a', c, r) =>
@@ -322,7 +322,7 @@ Definition xstep (s : xstate) (op : xop) : outcome (xstate * xres) :=
           match x_loc x with
           | LOut =>
               let (o, os') := take_oracle (x_a s) th p os in
-              if negb (oracle_ok (x_a s) o) then Misuse else
+              if negb (oracle_ok (x_a s) th o) then Misuse else
               match unit_set_associated_pool bi (x_a s) (t_unit f) p o with
               | None => Abort
               | Some (a', c, r) =>
